@@ -57,14 +57,14 @@ def check(pm: ProgramModel, ctx: Ctx) -> None:
     fm = mb.model(root, [])
     calls: list[tuple[Any, ...]] = []
     it = Interp(pm)
-    it.native[walk.qual] = lambda *a: calls.append(a)
+    it.native[walk.qual] = it.signature_stub(walk, lambda *a: calls.append(a))      # arguments in the walk's own order
     try:
         res = it.call(entry, [fm])
     except AbsRaise as exc:
         res = ("raise", exc.what)
     ok = (isinstance(res, list) and len(res) == 1 and isinstance(res[0], set)
           and len(res[0]) == 1 and next(iter(res[0])) is root and len(calls) == 1
-          and len(calls[0]) == 3 and calls[0][0] is res and calls[0][1] is root
+          and len(calls[0]) >= 3 and calls[0][0] is res and calls[0][1] is root
           and calls[0][2] is res[0])
     ctx.check(ok, "C15-PARTITION", "init", loc(entry.unit.path, entry.node),
               "entry registers exactly {root} and starts the walk at the root with that list and set",
@@ -97,7 +97,7 @@ def check(pm: ProgramModel, ctx: Ctx) -> None:
                 return _it.call(walk, list(a), skip_native=True)
             _calls.append(a)
             return None
-        it.native[walk.qual] = stub
+        it.native[walk.qual] = it.signature_stub(walk, stub)     # further (optional) parameters may follow the three
         try:
             it.call(walk, [sets, f, cur])
         except AbsRaise as exc:
@@ -110,7 +110,7 @@ def check(pm: ProgramModel, ctx: Ctx) -> None:
             continue
         for r_, d in zip(rels, ds):
             for c in r_._f["children"]:
-                mine = [a for a in calls if len(a) == 3 and a[1] is c]
+                mine = [a for a in calls if len(a) >= 3 and a[1] is c]
                 holders = [s for s in sets if any(x is c for x in s)]
                 if len(mine) != 1:
                     bad_part.append(f"{label}: walk continued {len(mine)} times for child "
